@@ -339,6 +339,41 @@ func callConsumer(w *robustWorld, fn string, in []byte, aux ev) string {
 	return "unknown-fn"
 }
 
+// craftRobust builds the authentic-but-odd type-3 requests in the world of the executing process
+func craftRobust(c *ctx, w *robustWorld, craft map[string]any) []byte {
+	r := newRand(c.seed, fmt.Sprintf("craft-%v-%v", craft["kind"], craft["n"]))
+	iss := w.a3.w.issuer
+	switch craft["kind"].(string) {
+	case "mutation":
+		ms := mutations(w.honestIn["t3.Evaluate"], []lenField{{jInt(craft["off"]), craft["fk"].(string)}}, newRand(c.seed, "mut-t3.Evaluate"), c.thorough())
+		if k := jInt(craft["n"]); k < len(ms) {
+			return ms[k]
+		}
+		return nil
+	case "inner-padded": // a well-sealed, well-signed request whose padded origin name has n zero bytes (n = 0: none at all)
+		inner := type3.VerifNewInnerTokenRequest(iss.TokenKeyID()[0], randBytes(r, 256), make([]byte, jInt(craft["n"]))).Marshal()
+		q := &type3.RateLimitedTokenRequest{RequestKey: w.a3reg.RequestKey, NameKeyID: w.a3reg.NameKeyID}
+		q.EncryptedTokenRequest = sealT3(iss.NameKey(), q.RequestKey, inner, true)
+		q.Signature = signT3(p384Scalar(c.seed, "client1"), p384Scalar(c.seed, "blind1"), q)
+		return q.Marshal()
+	case "inner-padded-ones": // ... whose padded origin name is n non-zero bytes (no padding at all)
+		inner := type3.VerifNewInnerTokenRequest(iss.TokenKeyID()[0], randBytes(r, 256), bytes.Repeat([]byte{'o'}, jInt(craft["n"]))).Marshal()
+		q := &type3.RateLimitedTokenRequest{RequestKey: w.a3reg.RequestKey, NameKeyID: w.a3reg.NameKeyID}
+		q.EncryptedTokenRequest = sealT3(iss.NameKey(), q.RequestKey, inner, true)
+		q.Signature = signT3(p384Scalar(c.seed, "client1"), p384Scalar(c.seed, "blind1"), q)
+		return q.Marshal()
+	case "origin-name": // an honest client request for an odd origin name
+		name := strings.Repeat("\x00", jInt(craft["n"]))
+		st, err := type3.NewRateLimitedClientFromSecret(p384Scalar(c.seed, "client1")).CreateTokenRequest(randBytes(r, 8), randNonce(r),
+			p384Scalar(c.seed, "blind-empty"), iss.TokenKeyID(), iss.TokenKey(), name, iss.NameKey())
+		if err != nil {
+			return nil
+		}
+		return st.Request().Marshal()
+	}
+	return nil
+}
+
 // where the varint-framed list starts in the honest input of the list decoders
 var robustListOffset = map[string]int{"batched.Unmarshal": 0, "batched.UnmarshalResponses": 0, "t5.UnmarshalRequest": 3, "t5.FinalizeTokens/3": 0}
 
@@ -383,6 +418,11 @@ func execRobust(c *ctx, in ev) []ev {
 			b = append(append(b, nb...), tail...)
 		}
 	}
+	if craft, _ := in["craft"].(map[string]any); craft != nil {
+		// an input that must be AUTHENTIC towards this process's issuer (sealed to its name key, signed by the client the
+		// world knows): built here, not in the generating process, whose issuer had another name key
+		b = craftRobust(c, w, craft)
+	}
 	if gBool(in, "honest") {
 		// honest inputs depend on this process's world (library randomness):
 		// the case names the honest input, the world supplies it
@@ -421,8 +461,17 @@ func genRobust(c *ctx, emit func(ev)) {
 		} else {
 			call(fn, honest, false)
 		}
-		for _, b := range mutations(honest, fields, r, c.thorough()) {
-			call(fn, b, false)
+		if fn == "t3.Evaluate" {
+			// the issuer's name key is drawn per process: mutations of the GENERATING process's request would all fail at
+			// decryption in the executing one. The case carries the index of the mutation; the executing process applies
+			// the same (seeded) mutation closure to ITS honest request.
+			for k := range mutations(honest, fields, newRand(c.seed, "mut-"+fn), c.thorough()) {
+				emit(ev{"op": "Call", "fn": fn, "in": B(nil), "honest": false, "craft": ev{"kind": "mutation", "n": k, "off": fields[0].off, "fk": fields[0].kind}})
+			}
+		} else {
+			for _, b := range mutations(honest, fields, r, c.thorough()) {
+				call(fn, b, false)
+			}
 		}
 		call(fn, nil, false)
 		// every one-byte string a point / scalar / tag decoder treats specially (0x00 is SEC1's point at infinity)
@@ -545,19 +594,13 @@ func genRobust(c *ctx, emit func(ev)) {
 	}
 
 	// honest client requests for the empty origin name (32 zero bytes of padding) and a crafted all-zero / empty padded origin
-	for _, name := range []string{"", "\x00", "\x00\x00\x00"} {
-		st, err := type3.NewRateLimitedClientFromSecret(p384Scalar(c.seed, "client1")).CreateTokenRequest(randBytes(r, 8), randNonce(r),
-			p384Scalar(c.seed, "blind-empty"), w.a3.w.issuer.TokenKeyID(), w.a3.w.issuer.TokenKey(), name, w.a3.w.issuer.NameKey())
-		if err == nil {
-			call("t3.Evaluate", st.Request().Marshal(), false)
-		}
+	// (built by the EXECUTING process: they must be sealed to its issuer's name key)
+	for _, n := range []int{0, 1, 3} {
+		emit(ev{"op": "Call", "fn": "t3.Evaluate", "in": B(nil), "honest": false, "craft": ev{"kind": "origin-name", "n": n}})
 	}
-	for _, n := range []int{0, 1, 32, 64} {
-		inner := type3.VerifNewInnerTokenRequest(w.a3.w.issuer.TokenKeyID()[0], randBytes(r, 256), make([]byte, n)).Marshal()
-		q := &type3.RateLimitedTokenRequest{RequestKey: w.a3reg.RequestKey, NameKeyID: w.a3reg.NameKeyID}
-		q.EncryptedTokenRequest = sealT3(w.a3.w.issuer.NameKey(), q.RequestKey, inner, true)
-		q.Signature = signT3(p384Scalar(c.seed, "client1"), p384Scalar(c.seed, "blind1"), q)
-		call("t3.Evaluate", q.Marshal(), false)
+	for _, n := range []int{0, 1, 31, 32, 33, 64} {
+		emit(ev{"op": "Call", "fn": "t3.Evaluate", "in": B(nil), "honest": false, "craft": ev{"kind": "inner-padded", "n": n}})
+		emit(ev{"op": "Call", "fn": "t3.Evaluate", "in": B(nil), "honest": false, "craft": ev{"kind": "inner-padded-ones", "n": n}})
 	}
 
 	// requests / tokens whose fields have arbitrary lengths
